@@ -23,8 +23,9 @@ for arg in sys.argv[1:]:
 OBSOLETE = {'C05-m2': 'obsolete: it broke the property only through the container defect that fix bc55958 removed (iteration by index is now complete), the change is harmless on the repaired tree',
             'C12-m4': 'obsolete: the branch it changed is gone after fix a1c866a'}
 for k, why in OBSOLETE.items():
-    if k in res and not res[k]['verdict'].startswith('caught'):
-        res[k]['verdict'] = why
+    if k not in res or not res[k]['verdict'].startswith('caught'):
+        base = res.get(k) or dict(property=k.split('-')[0], runs={}, summary=json.load(open('%s/seeded/%s/meta.json' % (V, k))).get('summary', '')[:220])
+        res[k] = dict(base, verdict=why)
 have = set(os.path.basename(d) for d in glob.glob(V + '/seeded/C*-m*'))
 for k in sorted(have - set(res)):
     res[k] = dict(property=k.split('-')[0], verdict='not run in the last matrices', runs={}, summary=json.load(open('%s/seeded/%s/meta.json' % (V, k))).get('summary', '')[:220])
